@@ -54,7 +54,7 @@ OUTSIDE = ['labels longer than the (G)/(M) bounds are covered only through '
            'indent > 5 (used only in " " * column)']
 
 ROLES = [':r', ':', ':r-of~e.1']
-ATOMS = ['b', None, '"x (y) / : ~ # \\" z"', 'c~2,3']
+ATOMS = ['b', None, '"x (y) / : ~ # \\" \\t \\\\ z"', 'c~2,3']
 CONCEPTS = [NO_CONCEPT, None, 'y~1']
 INDENTS = [None, -1, 0, 1, 2, 3, 5]
 METAS = [{}, {'id': '1'},
@@ -152,6 +152,63 @@ def h_metadata(ki: int, value: str, vlen: int, second: bool):
     require(len(got) == len(meta) and got.get(key) == value
             and (not second or got.get('zz') == 'w'),
             'metadata does not round-trip', key, value, text, got)
+
+
+def h_multikey_line(ki: int, v1: str, v2i: int, vlen: int):
+    """A metadata line with several keys, as users write it
+    ('# ::id 7 ::snt ...'): every value is read right-stripped, and the
+    metadata survives format + parse (fixed point)."""
+    import penman
+    from penman._lexer import Token, TokenIterator
+    from penman._parse import _parse_comments
+    from penman.tree import Tree
+    bound_int(ki, 0, len(KEYS))
+    key = progs.pick(ki, KEYS)
+    assume(key != 'zz' and key != 'snt')
+    bound_int(v2i, 0, 3)
+    v2 = progs.pick(v2i, ['x  y', '', 'z'])
+    assume(len(v1) <= vlen)
+    chars_not_in(v1, ':\n\r')
+    if len(v1) > 0:
+        assume(not v1[len(v1) - 1].isspace())
+    line = '# ::' + key + ' ' + v1 + ' ::snt ' + v2 + '  ::zz'
+    toks = [Token('COMMENT', line, 1, 0, line),
+            Token('LPAREN', '(', 2, 0, '(a)')]
+    try:
+        got = _parse_comments(TokenIterator(iter(toks)))
+    except Exception as exc:
+        raise Violation(f'{type(exc).__name__}: {exc}', line)
+    mark('multi-key')
+    require(len(got) == 3 and got.get(key) == v1 and got.get('snt') == v2
+            and got.get('zz') == '', 'multi-key metadata line misread', line,
+            got)
+
+
+def h_multikey_fixed_point(ki: int, v1i: int, v2i: int):
+    """parse -> format -> parse of a text whose metadata line has several
+    keys (catalogue values, through the real lexer)."""
+    import penman
+    bound_int(ki, 0, len(KEYS))
+    key = progs.pick(ki, KEYS)
+    assume(key != 'zz' and key != 'snt')
+    vals = ['x  y', '', 'z ;(w) "q"', '7']
+    bound_int(v1i, 0, len(vals))
+    bound_int(v2i, 0, len(vals))
+    v1, v2 = progs.pick(v1i, vals), progs.pick(v2i, vals)
+    s = '# ::' + key + ' ' + v1 + ' ::snt ' + v2 + ' \t ::zz\n(a / b)'
+    try:
+        t = penman.parse(s)
+        f1 = penman.format(t)
+        t2 = penman.parse(f1)
+        f2 = penman.format(t2)
+    except Exception as exc:
+        raise Violation(f'{type(exc).__name__}: {exc}', s)
+    mark('multi-key')
+    require(t.metadata == {key: v1, 'snt': v2, 'zz': ''},
+            'multi-key metadata line misread', s, t.metadata)
+    require(t2.metadata == t.metadata and t2.node == t.node,
+            'metadata changed by format + parse', s, f1, t2.metadata)
+    require(f1 == f2, 'formatted text is not a fixed point', f1, f2)
 
 
 def h_text_fixed_point(s: str, maxlen: int):
@@ -266,6 +323,10 @@ def obligations(tier: str) -> List[dict]:
         add('h_metadata', '(M) metadata', 400, ['empty-value'], vlen=4,
             second=False)
         add('h_metadata', '(M) metadata', 400, vlen=3, second=True)
+        add('h_multikey_line', '(M) multi-key line', 400, ['multi-key'],
+            vlen=1)
+        add('h_multikey_fixed_point', '(M) multi-key fixed point', 300,
+            ['multi-key'])
         add('h_text_fixed_point', '(G) text fixed point', 300, ['accepted'],
             maxlen=2)
         add('h_text_fixed_point', '(G) text fixed point', 400, ['accepted'],
@@ -278,6 +339,10 @@ def obligations(tier: str) -> List[dict]:
                         indent=ii, meta=ii % 3, i0_op=ops[0], i1_op=ops[1],
                         i0_r=r0)
         add('h_metadata', '(M) metadata', 3000, vlen=3, second=False)
+        add('h_multikey_line', '(M) multi-key line', 3000, ['multi-key'],
+            vlen=2)
+        add('h_multikey_fixed_point', '(M) multi-key fixed point', 600,
+            ['multi-key'])
         add('h_metadata', '(M) metadata', 3000, vlen=2, second=True)
         for ki in range(len(KEYS)):
             add('h_metadata', '(M) metadata', 3000, vlen=4, second=False,
